@@ -21,6 +21,15 @@ def cases(draw):
     if draw(st.sampled_from([False] * 5 + [True])):
         opts['post_mortem'] = True
         opts['repeat'] = 1
+    elif draw(st.integers(0, 5)) == 0:
+        # a test that itself runs the test runner in process (as the runner's own tests and the tests of packages that
+        # ship layers do): two result objects are alive at the same time
+        tests = [t for _, t in gen.iter_tests(spec) if t['k'] != 'skip_deco']
+        if tests:
+            t = tests[draw(st.integers(0, len(tests) - 1))]
+            t.setdefault('acts', {}).setdefault(draw(st.sampled_from(['setUp', 'body', 'tearDown'])), []).append(
+                ['nested_run', [], draw(st.sampled_from(['hooks', 'plain']))])
+            opts['nested'] = True
     return {'spec': spec, 'opts': opts}
 
 
@@ -62,6 +71,8 @@ class InProc(Part):
                 viol += traceana.check_per_test_hooks(w, evs, skl)
         # an aborted run is C04's business, but it truncates the history: label it
         labels = []
+        if case['opts'].get('nested'):
+            labels.append('nested-run')
         if run.exc is not None:
             labels.append('run-aborted(%s)' % type(run.exc).__name__)
         kinds = common.count_kinds(spec)
